@@ -14,8 +14,15 @@ model (`Driver/C12.lean`, which is told only the *effects* of the test factory: 
 sub-step and the returned flags).
 
 Oracle (independent of the model): every value a getter returns is compared with the value recomputed
-from scratch on the chromosome's current tests (fresh rendering of the statements, no flag, no cache,
-no stored result), and a query for a registered function must not raise.
+from scratch on the chromosome's current tests, twice: by the functions' formulas on a fresh rendering of
+the statements (no flag, no cache, no stored result), and literally by calling the function's own
+`compute_fitness / compute_is_covered / compute_coverage` on a pristine chromosome built from clones of the
+current tests.  A query for a registered function must not raise.
+
+Fitness values are floats of three magnitude classes — whole numbers, quarters and a few `2**-60` (far below
+any absolute tolerance) — all exact multiples of `2**-60`, which is the unit the model computes in.
+Crossover is driven through `SinglePointRelativeCrossOver` AND by calling `cross_over(other.clone(), position1,
+position2)` directly with boundary positions (0, size - 1, size, size + 1) on possibly empty chromosomes.
 """
 from __future__ import annotations
 
@@ -66,8 +73,22 @@ KNOWN_SIG = {"op": "mutateSuite", "class": "empty-test-dropped-unflagged"}
 # ---------------------------------------------------------------------------------------------
 # the deterministic functions (same formulas as Model/Cache.lean `tcSem` / `suSem`)
 # ---------------------------------------------------------------------------------------------
+UNIT_BITS = 60           # the model's unit is 2**-60
+MAX_SPLICED = 8          # a direct suite crossover never grows a suite beyond this many members
+
+
+def mag(m, v):
+    """v, v/4 or v * 2**-60 (magnitude class m % 3) in units of 2**-60 (Model/Cache.lean `mag`)."""
+    return (v << 60, v << 58, v)[m % 3]
+
+
+def to_float(units):
+    """the float with exactly this many units (units < 2**63 with <= 3 significant bits: always exact)"""
+    return math.ldexp(units, -UNIT_BITS)
+
+
 def tc_fit(f, c):
-    return (c * (f + 2) + f) % 5
+    return mag(c + f, (c * (f + 2) + f) % 5)
 
 
 def tc_cov(f, c):
@@ -75,7 +96,7 @@ def tc_cov(f, c):
 
 
 def su_fit(f, cs):
-    return (sum(cs) + f * len(cs) + f) % 7
+    return mag(sum(cs) + f, (sum(cs) + f * len(cs) + f) % 7)
 
 
 def su_cov(f, cs):
@@ -277,7 +298,7 @@ def _define_functions():
             self.fid = fid
 
         def compute_fitness(self, individual):
-            return float(tc_fit(self.fid, self._run_test_case_chromosome(individual).c12))
+            return to_float(tc_fit(self.fid, self._run_test_case_chromosome(individual).c12))
 
         def compute_is_covered(self, individual):
             return tc_fit(self.fid, self._run_test_case_chromosome(individual).c12) == 0
@@ -299,7 +320,7 @@ def _define_functions():
             self.fid = fid
 
         def compute_fitness(self, individual):
-            return float(su_fit(self.fid, [r.c12 for r in self._run_test_suite_chromosome(individual)]))
+            return to_float(su_fit(self.fid, [r.c12 for r in self._run_test_suite_chromosome(individual)]))
 
         def compute_is_covered(self, individual):
             return su_fit(self.fid, [r.c12 for r in self._run_test_suite_chromosome(individual)]) == 0
@@ -356,7 +377,7 @@ class _History:
     def _cache(ch):
         cc = ch.computation_cache
         return [[f.fid for f in cc._fitness_functions], [f.fid for f in cc._coverage_functions],
-                sorted([f.fid, _exact_int(v)] for f, v in cc._fitness_cache.items()),
+                sorted([f.fid, _units(v)] for f, v in cc._fitness_cache.items()),
                 sorted([f.fid, 1 if v else 0] for f, v in cc._is_covered_cache.items()),
                 sorted([f.fid, _exact_int(v * 4)] for f, v in cc._coverage_cache.items())]
 
@@ -387,8 +408,8 @@ class _History:
         else:
             r = [self.cid(t.test_case) for t in ch.test_case_chromosomes]
             fit, cov = su_fit, su_cov
-        if q == "fitness":
-            return {"v": sum(fit(g, r) for g in fs)}
+        if q == "fitness":      # the float sum in registration order (exact or order-independent, see _units)
+            return {"vf": _frac(sum(to_float(fit(g, r)) for g in fs))}
         if q == "fitnessFor":
             return {"v": fit(f, r)}
         if q == "isCovered":
@@ -398,6 +419,64 @@ class _History:
                 return {"err": "StatisticsError"}
             return {"meanf": _frac(statistics.mean([cov(g, r) / 4 for g in cfs]))}
         return {"v": cov(f, r)}
+
+    def literal(self, ch, level, q, fobj):
+        """The same values by the functions' own compute_* on a pristine chromosome (clones of the current tests)."""
+        env = ENV
+        cc = ch.computation_cache
+        execs = self.executions
+        try:
+            if level == "tc":
+                fresh = env.tcc.TestCaseChromosome(ch.test_case.clone())
+            else:
+                fresh = env.tsc.TestSuiteChromosome()
+                for t in ch.test_case_chromosomes:
+                    fresh.add_test_case_chromosome(env.tcc.TestCaseChromosome(t.test_case.clone()))
+            if q == "fitness":
+                return {"vf": _frac(sum(g.compute_fitness(fresh) for g in _dedup_objs(cc._fitness_functions)))}
+            if q == "fitnessFor":
+                return {"v": _units(fobj.compute_fitness(fresh))}
+            if q == "isCovered":
+                return {"b": bool(fobj.compute_is_covered(fresh))}
+            if q == "coverage":
+                cfs = _dedup_objs(cc._coverage_functions)
+                if not cfs:
+                    return {"err": "StatisticsError"}
+                return {"meanf": _frac(statistics.mean([g.compute_coverage(fresh) for g in cfs]))}
+            return {"v": _exact_int(fobj.compute_coverage(fresh) * 4)}
+        finally:
+            self.executions = execs
+
+
+def _units(v):
+    """A fitness value in units of 2**-60 (an int; anything else is returned as an exact fraction).
+
+    Sums: the values are whole numbers / quarters (exact among themselves) and <= 5 values of <= 6 * 2**-60
+    (together < 2**-55 = half an ulp of 0.25), so a float sum in ANY order is the correctly rounded exact sum."""
+    fr = Fraction(v) * (1 << UNIT_BITS)
+    return int(fr) if fr.denominator == 1 else [fr.numerator, fr.denominator]
+
+
+def _dedup_objs(xs):
+    out = []
+    for x in xs:
+        if not any(x is y for y in out):
+            out.append(x)
+    return out
+
+
+def _pos(spec, size):
+    """a planned split position for a chromosome of `size` elements"""
+    m = spec["m"]
+    if m == "zero":
+        return 0
+    if m == "size":
+        return size
+    if m == "size-1":
+        return max(size - 1, 0)
+    if m == "size+1":
+        return size + 1
+    return spec["v"] % (size + 1)
 
 
 def _exact_int(v):
@@ -428,7 +507,9 @@ class C12(PropertyCheck):
     n_thorough = 6000
     n_search = 3000
     rule = ("random histories (8..45 operations) over <=4 test-case chromosomes and <=3 suite chromosomes: real "
-            "mutate / crossover / clone / add-delete-set member / add function / invalidate / the five getters on "
+            "mutate / relative crossover / direct cross_over(other, p1, p2) with boundary positions (0, size-1, size, "
+            "size+1) and empty chromosomes / clone / add-delete-set member / add function / invalidate / the five "
+            "getters (fitness values: whole numbers, quarters and k*2**-60) on "
             "chromosomes, suites and suite members, functions queried in random order, registered-only histories "
             "(85%) and histories with unregistered per-function queries (15%); non-trivial = distinct history with "
             ">=1 getter answered from the cache of an unchanged chromosome AND >=1 getter that had to recompute "
@@ -446,7 +527,9 @@ class C12(PropertyCheck):
         "Model/Cache.lean mirrors ComputationCache.{_check_cache,_compute_*,get_*,invalidate_cache,add_*_function,"
         "clone}, _run_test_case_chromosome, _run_test_suite_chromosome, TestCaseMutation.mutate, "
         "TestSuiteMutation.mutate, splice_test_case_chromosomes, splice_test_suite_chromosomes, "
-        "SinglePointRelativeCrossOver.cross_over, TestSuiteChromosome.{add,delete,set}_test_case_chromosome",
+        "SinglePointRelativeCrossOver.cross_over, TestCaseChromosome.cross_over / TestSuiteChromosome.cross_over with "
+        "arbitrary positions, TestSuiteChromosome.{add,delete,set}_test_case_chromosome; fitness values are exact "
+        "multiples of 2**-60 (math.isclose(v, 0.0) with default tolerances = isCloseZero)",
         "the test factory's statement edits are not modelled: the model receives their observed effect (content "
         "identifiers after each sub-step, returned flags); hypothesis `honest` = a sub-step that returns False left "
         "the statements alone (checked on every real mutation by the adapter, counted as kind:dishonest-substep)",
@@ -474,12 +557,31 @@ class C12(PropertyCheck):
         plan += [new_tc(), new_tc(), {"k": "newSuite"}]
         for _ in range(rng.randint(0, 3)):
             plan.append({"k": "addTest", "s": 0, "i": rng.randrange(2)})
+        def pos():
+            return {"m": rng.choice(["zero", "size", "size-1", "size+1", "rand", "rand"]), "v": rng.randrange(64)}
+
         kinds = ["newTc", "cloneTc", "mutTc", "xTc", "newSuite", "cloneSu", "addTest", "delTest", "setTest", "mutSu",
-                 "xSu", "addFit", "addCov", "inval", "q"]
-        weights = [2, 2, 8, 4, 1, 2, 4, 1, 1, 7, 3, 5, 4, 1, 22]
+                 "xSu", "addFit", "addCov", "inval", "q", "xTcD", "xSuD"]
+        weights = [2, 2, 8, 4, 1, 2, 4, 1, 1, 7, 3, 5, 4, 1, 24, 2, 4]
+        if rng.random() < 0.8:      # the first suite usually has functions from the start
+            plan.append({"k": "addFit", "ref": ["su", 0], "f": rng.randrange(N_FUNCS)})
+            plan.append({"k": rng.choice(["addFit", "addCov"]), "ref": ["su", 0], "f": rng.randrange(N_FUNCS)})
+
+        def probe(r):
+            """a getter on the chromosome an operation is about to change / has just changed"""
+            return {"k": "q", "ref": r, "q": rng.choices(QUERIES, [4, 5, 4, 2, 3])[0], "f": rng.randrange(64),
+                    "unreg": False}
+
+        targets = {"mutTc": ("tc", "i"), "xTc": ("tc", "a"), "xTcD": ("tc", "a"), "mutSu": ("su", "s"),
+                   "xSu": ("su", "a"), "xSuD": ("su", "a"), "addTest": ("su", "s"), "delTest": ("su", "s"),
+                   "setTest": ("su", "s")}
         for _ in range(n):
             k = rng.choices(kinds, weights)[0]
             a, b, c = rng.randrange(64), rng.randrange(64), rng.randrange(64)
+            bracket = k in targets and rng.random() < (0.45 if k.startswith("x") else 0.25)
+            if bracket:                 # query - edit - query on the same chromosome
+                plan.append(probe([targets[k][0], a]))
+            at = len(plan)
             if k == "newTc":
                 plan.append(new_tc())
             elif k in ("cloneTc", "cloneSu"):
@@ -488,6 +590,8 @@ class C12(PropertyCheck):
                 plan.append({"k": k, "i": a})
             elif k in ("xTc", "xSu"):
                 plan.append({"k": k, "a": a, "b": b, "r": rng.randrange(16)})
+            elif k in ("xTcD", "xSuD"):
+                plan.append({"k": k, "a": a, "b": b, "p1": pos(), "p2": pos()})
             elif k == "newSuite":
                 plan.append({"k": k})
             elif k == "addTest":
@@ -505,6 +609,11 @@ class C12(PropertyCheck):
             else:
                 plan.append({"k": "q", "ref": ref(), "q": rng.choices(QUERIES, [3, 5, 4, 2, 4])[0], "f": a,
                              "unreg": unreg and rng.random() < 0.25})
+                while rng.random() < 0.35:      # the same chromosome and function index, another getter
+                    plan.append(dict(plan[-1], q=rng.choices(QUERIES, [3, 5, 6, 2, 4])[0]))
+            if bracket:
+                assert plan[at][targets[k][1]] == a
+                plan.append(probe([targets[k][0], a]))
         return {"seed": rng.randrange(1 << 30), "cl": rng.choice([3, 4, 6, 8]), "maxsize": rng.choice([2, 3, 5]),
                 "pins": rng.choice([0.3, 0.5, 0.8]), "ptest": rng.choice([0.1, 0.4]), "unreg": unreg, "plan": plan}
 
@@ -626,9 +735,11 @@ class C12(PropertyCheck):
             ei = st.cid(a.test_case) if a.test_case is not olds[0] else None
             ej = st.cid(b.test_case) if b.test_case is not olds[1] else None
             self.count("xoverTc:" + ("accepted" if ei is not None or ej is not None else "rejected-or-small"))
-            for ch in (a, b):
+            for ch, e in ((a, ei), (b, ej)):
                 if ch.changed:
                     _clear_cause(ch)
+                elif e is not None:
+                    ch._c12_cause = {"op": "xoverTc", "class": "offspring-accepted-unflagged"}
             emit({"xoverTc": {"i": i, "j": j, "ei": ei, "ej": ej}}, [("tc", i), ("tc", j)])
         elif k == "newSuite":
             if nsu >= MAX_SUITES:
@@ -728,15 +839,60 @@ class C12(PropertyCheck):
                 t = (s + 1) % nsu
             a, b = st.suites[s], st.suites[t]
             na, nb = a.size(), b.size()
+            befores = [[st.cid(x.test_case) for x in ch.test_case_chromosomes] for ch in (a, b)]
             r = p["r"] / 16
             p1 = math.floor((na - 1) * r) + 1 if na >= 2 and nb >= 2 else 0
             p2 = math.floor((nb - 1) * r) + 1 if na >= 2 and nb >= 2 else 0
             self._with_split(p["r"], lambda: env.xo.SinglePointRelativeCrossOver().cross_over(a, b))
             self.count("xoverSuite:" + ("done" if na >= 2 and nb >= 2 else "small"))
-            for ch in (a, b):
+            for ch, before in zip((a, b), befores):
                 if ch.changed:
                     _clear_cause(ch)
+                elif [st.cid(x.test_case) for x in ch.test_case_chromosomes] != before:
+                    ch._c12_cause = {"op": "xoverSuite", "class": "content-changed-unflagged"}
             emit({"xoverSuite": {"s": s, "t": t, "p1": p1, "p2": p2}}, [("su", s), ("su", t)])
+        elif k == "xTcD":
+            # tcs[i].cross_over(tcs[j].clone(), position1, position2) called directly; i == j is allowed
+            if not ntc:
+                return
+            i, j = p["a"] % ntc, p["b"] % ntc
+            a, b = st.tcs[i], st.tcs[j]
+            p1, p2 = _pos(p["p1"], a.test_case.size()), _pos(p["p2"], b.test_case.size())
+            old, c0 = a.test_case, st.cid(a.test_case)
+            a.cross_over(b.clone(), p1, p2)
+            e = st.cid(a.test_case) if a.test_case is not old else None
+            self.count("crossTc:" + ("accepted" if e is not None else "rejected"))
+            self.count("crossTc:p1-" + p["p1"]["m"] + ":p2-" + p["p2"]["m"])
+            if a.changed:
+                _clear_cause(a)
+            elif st.cid(a.test_case) != c0:
+                a._c12_cause = {"op": "crossTc", "class": "content-changed-unflagged"}
+            emit({"crossTc": {"i": i, "j": j, "e": e}}, [("tc", i)])
+        elif k == "xSuD":
+            # suites[s].cross_over(suites[t].clone(), position1, position2) called directly (boundary positions,
+            # empty suites, s == t)
+            if not nsu:
+                return
+            s, t = p["a"] % nsu, p["b"] % nsu
+            a, b = st.suites[s], st.suites[t]
+            na, nb = a.size(), b.size()
+            p1, p2 = _pos(p["p1"], na), _pos(p["p2"], nb)
+            tail = max(nb - p2, 0)
+            if min(p1, na) + tail > MAX_SPLICED:
+                p1 = max(0, MAX_SPLICED - tail)
+            before = [st.cid(x.test_case) for x in a.test_case_chromosomes]
+            a.cross_over(b.clone(), p1, p2)
+            after = [st.cid(x.test_case) for x in a.test_case_chromosomes]
+            self.count("crossSuite:" + ("empty-tail" if tail == 0 else "tail") + ":"
+                       + ("kept-all" if p1 >= na else "truncated"))
+            if na == 0 or nb == 0:
+                self.count("crossSuite:with-empty-suite")
+            if a.changed:
+                _clear_cause(a)
+            elif after != before:
+                a._c12_cause = {"op": "crossSuite", "class": ("truncated-with-empty-tail-unflagged" if tail == 0
+                                                               else "content-changed-unflagged")}
+            emit({"crossSuite": {"s": s, "t": t, "p1": p1, "p2": p2}}, [("su", s)])
         elif k in ("addFit", "addCov", "inval"):
             res = resolve(p["ref"])
             if res is None:
@@ -826,12 +982,13 @@ class C12(PropertyCheck):
         had = {"fitness": cc._fitness_cache, "fitnessFor": cc._fitness_cache, "isCovered": cc._is_covered_cache,
                "coverage": cc._coverage_cache, "coverageFor": cc._coverage_cache}[q]
         hit = (not was_changed) and (fobj in had if fobj is not None else len(had) > 0)
+        fit_first = q == "isCovered" and not was_changed and fobj in cc._fitness_cache and fobj in had
         execs = st.executions
         try:
             if q == "fitness":
-                out = {"v": _exact_int(ch.get_fitness())}
+                out = {"vf": _frac(ch.get_fitness())}
             elif q == "fitnessFor":
-                out = {"v": _exact_int(ch.get_fitness_for(fobj))}
+                out = {"v": _units(ch.get_fitness_for(fobj))}
             elif q == "isCovered":
                 out = {"b": bool(ch.get_is_covered(fobj))}
             elif q == "coverage":
@@ -854,10 +1011,15 @@ class C12(PropertyCheck):
             st.flags.add("recomputed")
         self.count("query:" + q + (":unregistered" if not registered else ""))
         self.count("query-path:" + ("changed" if was_changed else ("hit" if hit else "fill")))
+        if q in ("fitness", "fitnessFor", "isCovered") and "err" not in out:
+            vals = [_units(v) for g, v in cc._fitness_cache.items() if fobj is None or g is fobj]
+            if any(isinstance(v, int) and 0 < v < 64 for v in vals):
+                self.count("query:" + q + ":tiny-positive-fitness" + (":verdict-from-fitness" if fit_first else ""))
         mq = q if f is None else {q: {"f": f}}
         emit({"query": {"r": mref, "q": mq}}, [host], out=out, scratch=st.scratch(ch, level, q, f),
+             literal=st.literal(ch, level, q, fobj) if registered else None,
              registered=registered, tainted=st.tainted, cause=getattr(ch, "_c12_cause", None),
-             qname=q, level=level)
+             qname=q, level=level, fit_first=fit_first)
 
     # -- model ---------------------------------------------------------------------------------------
     def model_line(self, case):
@@ -880,6 +1042,10 @@ class C12(PropertyCheck):
                 return False
             s, n = mo["mean"]
             return n > 0 and _frac(float(Fraction(s, 4 * n))) == io["meanf"]
+        if io is not None and "vf" in io:       # the float sum of the cached values = the rounded exact sum
+            if not (isinstance(mo, dict) and isinstance(mo.get("v"), int)):
+                return False
+            return _frac(float(Fraction(mo["v"], 1 << UNIT_BITS))) == io["vf"]
         return mo == io
 
     def compare(self, case, impl_out, model_out):
@@ -904,8 +1070,11 @@ class C12(PropertyCheck):
                 continue
             o, want = s["o"], s["scratch"]
             per_function = s["qname"] in ("fitnessFor", "isCovered", "coverageFor")
-            if o == want:
+            lit = s["literal"] if s["literal"] is not None else want
+            if o == want and o == lit:
                 continue
+            if o == want:
+                want = lit
             if "err" in o and o["err"] == "KeyError" and (not s["registered"] or s["tainted"]):
                 continue                # outside the contract
             if s["tainted"] and not per_function:
@@ -915,7 +1084,10 @@ class C12(PropertyCheck):
                 what = (f"step {n}: {s['qname']} on a {s['level']} chromosome raised {o['err']} although the "
                         f"function is registered; recomputed from scratch: {want}")
             else:
-                cause = s["cause"] or {"op": "query", "class": "stale-value-unknown-cause"}
+                cause = s["cause"]
+                if cause is None and s["fit_first"]:
+                    cause = {"op": "query", "class": "verdict-inferred-by-fitness-query-differs-from-compute-is-covered"}
+                cause = cause or {"op": "query", "class": "stale-value-unknown-cause"}
                 sig = dict(cause)
                 what = (f"step {n}: {s['qname']} on a {s['level']} chromosome returned {o}, recomputed from scratch "
                         f"on its current tests: {want} (cause: {sig['class']})")
@@ -953,7 +1125,7 @@ class C12(PropertyCheck):
                 su.mutate()
             finally:
                 rnd.next_float = orig
-            got = _exact_int(su.get_fitness_for(f))
+            got = _units(su.get_fitness_for(f))
             want = st.scratch(su, "su", "fitnessFor", 1)["v"]
             flag = bool(su.changed)
         finally:
